@@ -262,6 +262,7 @@ func (c *Client) ReplaceStub(stub spb.GRIBIClient) error {
 func (c *Client) Reset() {
 	c.StopSending()
 	c.disconnect()
+	verifGate("rs.clear")
 
 	c.sendErrMu.Lock()
 	defer c.sendErrMu.Unlock()
@@ -296,14 +297,17 @@ func (c *Client) Reset() {
 
 // disconnect shuts down the goroutines started by Connect().
 func (c *Client) disconnect() {
+	verifGate("dc.check")
 	skipClose := false
 	if c.sendExitCh == nil || chIsClosed(c.sendExitCh) {
 		skipClose = true
 	}
 	if !skipClose {
 		// Close the modifyCh to signal to the request handler to exit.
+		verifGate("dc.close")
 		close(c.qs.modifyCh)
 	}
+	verifGate("dc.wait")
 	c.wg.Wait()
 }
 
@@ -430,8 +434,11 @@ func (c *Client) Connect(ctx context.Context) error {
 	// exit.
 	respHandler := func(in *spb.ModifyResponse, err error) bool {
 		log.V(2).Infof("received message on Modify stream: %s", in)
+		verifGate("r.rlock")
 		c.awaiting.RLock()
 		defer c.awaiting.RUnlock()
+		defer verifGate("r.runlock")
+		verifGate("r.handle")
 		if err == io.EOF {
 			// reading is done, so write should shut down too.
 			c.shut.Store(true)
@@ -456,16 +463,19 @@ func (c *Client) Connect(ctx context.Context) error {
 	go func() {
 		defer c.wg.Done()
 		defer informDone("receiver")
+		defer verifGate("r.exit")
 		if debug {
 			debugCtx, cancel := context.WithCancel(ctx)
 			defer cancel()
 			go debugWatcher(debugCtx, "recv", id)
 		}
 		for {
+			verifGate("r.loop")
 			if c.shut.Load() {
 				log.V(2).Infof("shutting down recv goroutine, id: %s, cause: SHUTDOWN", id)
 				return
 			}
+			verifGate("r.recv")
 			if done := respHandler(stream.Recv()); done {
 				log.V(2).Infof("shuttting down recv goroutine, id: %s, cause: HANDLER", id)
 				return
@@ -484,8 +494,11 @@ func (c *Client) Connect(ctx context.Context) error {
 			return true
 		}
 
+		verifGate("s.rlock")
 		c.awaiting.RLock()
 		defer c.awaiting.RUnlock()
+		defer verifGate("s.runlock")
+		verifGate("s.send")
 		if err := stream.Send(m); err != nil {
 			log.Errorf("got error sending message: %v", err)
 			c.addSendErr(err)
@@ -508,15 +521,20 @@ func (c *Client) Connect(ctx context.Context) error {
 			// Signal that we are exiting, this allows us to avoid the case that
 			// a race causes the modifyCh to become blocking.
 			log.V(2).Infof("closing send channel in id: %s", id)
+			verifGate("s.exit1")
 			c.sendExitCh <- struct{}{}
+			verifGate("s.exit2")
 			close(c.sendExitCh)
+			verifGate("s.exit3")
 		}()
 		for {
+			verifGate("s.loop")
 			if c.shut.Load() {
 				log.V(2).Infof("shutting down send goroutine, id: %s, cause: SHUTDOWN", id)
 				return
 			}
 
+			verifGate("s.recv")
 			v, ok := <-c.qs.modifyCh
 			if done := reqHandler(v, ok); done {
 				log.V(2).Infof("shutting down send goroutine, id: %s, cause: HANDLER", id)
@@ -867,6 +885,7 @@ func (o *OpDetailsResults) String() string {
 
 // Q enqueues a ModifyRequest to be sent to the target.
 func (c *Client) Q(m *spb.ModifyRequest) {
+	verifGate("q.begin")
 	if err := c.handleModifyRequest(m); err != nil {
 		log.Errorf("got error processing message that was to be sent, %v", err)
 		c.addSendErr(err)
@@ -903,13 +922,17 @@ func chIsClosed(ch <-chan struct{}) bool {
 // q is the internal implementation of queue that writes the ModifyRequest to
 // the channel to be sent.
 func (c *Client) q(m *spb.ModifyRequest) {
+	verifGate("q.rlock")
 	c.awaiting.RLock()
 	defer c.awaiting.RUnlock()
+	defer verifGate("q.runlock")
 
+	verifGate("q.check")
 	if !chIsClosed(c.sendExitCh) {
 		// The sender goroutine can exit whilst we are blocked waiting for space
 		// in the channel, in which case nothing reads from it any longer, so do not
 		// block forever.
+		verifGate("q.select")
 		select {
 		case c.qs.modifyCh <- m:
 		case <-c.sendExitCh:
@@ -1388,8 +1411,11 @@ func (c *Client) AwaitConverged(ctx context.Context) error {
 		//	- post-procesing a read message
 		// we do this by holding the awaiting mutex.
 		done, err := func() (bool, error) {
+			verifGate("aw.lock")
 			c.awaiting.Lock()
 			defer c.awaiting.Unlock()
+			defer verifGate("aw.unlock")
+			verifGate("aw.check")
 			if sendE, recvE := c.hasErrors(); len(sendE) != 0 || len(recvE) != 0 {
 				return true, &ClientErr{Send: sendE, Recv: recvE}
 			}
